@@ -69,6 +69,35 @@ def degenerate_cases():
   return out
 
 
+def both_detectors_cases(n):
+  """Smooth panels (8-10 geos, little noise) with a planted noisy geo AND a moderate outlier date for the treatment
+  group: frames on which both detectors report something in the same fit."""
+  import math
+  out = []
+  for k in range(n):
+    rng = random.Random(9000 + k)
+    ng, nd, n_pre = rng.randint(8, 10), 42, 28
+    base = [100 + 30 * math.sin(t / 3.0) + t for t in range(nd)]
+    noisy_geo = rng.randint(1, ng) if k % 3 != 2 else None
+    outlier_t = rng.randint(3, n_pre - 3)
+    geos = []
+    for g in range(1, ng + 1):
+      grp = 1 if g % 2 else 2
+      scale = 0.5 + 0.25 * g
+      series = []
+      for t in range(nd):
+        v = rng.gauss(200, 60) if g == noisy_geo else scale * base[t] + rng.gauss(0, 1)
+        if t == outlier_t and grp == 2:
+          v += 150.0
+        series.append(round(v * 8) / 8)
+      geos.append({'id': g, 'group': grp, 'series': series})
+    out.append({'idx': 200000 + k, 'geos': geos, 'n_pre': n_pre, 'n_test': nd - n_pre, 'n_cool': 0, 'labels': [1, 2],
+                'names': {} if k % 2 else {'key_geo': 'market', 'key_response': 'sales', 'key_date': 'day', 'key_group': 'arm',
+                                           'key_period': 'phase'},
+                'seed': 200000 + k, 'str_ids': bool(k % 2)})
+  return out
+
+
 def frame(case, shuffle_seed=None):
   import pandas as pd
   nm = {'key_geo': 'geo', 'key_response': 'response', 'key_date': 'date', 'key_group': 'group', 'key_period': 'period'}
@@ -195,7 +224,7 @@ def run(tier):
   ck.prove('props/C19.v', gen_targets=[], extra=['harness/RunC19.vo'])
   rng = random.Random(ck.seed * 47 + 19)
   n = 100 if tier == 'quick' else 1500
-  cases = degenerate_cases() + [gen_case(rng, i) for i in range(n)]
+  cases = degenerate_cases() + both_detectors_cases(8 if tier == 'quick' else 80) + [gen_case(rng, i) for i in range(n)]
   res = common.pmap(_one, cases, chunksize=2)
   dist = {'with_noisy_geos': 0, 'with_outlier_dates': 0, 'fewer_than_4_geos': 0, 'custom_names': 0, 'rows_total': 0}
   terms = []
@@ -234,7 +263,7 @@ def run(tier):
     ck.tie_broken('correspondence', 'TBRDiagnostics.fit vs model/Screen.v on %d frames' % len(bad), {'case': cases[sorted(bad)[0]]})
   ck.cov['rule'] = ('experiment frames with 1-5 control and 1-4 treatment geos (plus geos of a third group), 20-45 pre-period dates, '
                     'test and optional cooldown periods, planted noisy / constant / anti-correlated geos and spike dates, custom '
-                    'column names and group labels, string or integer geo IDs, plus four frames in which all or all but one geo are constant; each frame is fitted as generated and row-shuffled. '
+                    'column names and group labels, string or integer geo IDs, plus four frames in which all or all but one geo are constant and smooth 8-10-geo panels with a planted noisy geo and a moderate outlier date (both detectors report in one fit); each frame is fitted as generated and row-shuffled. '
                     'non-trivial: something was reported or at least four geos (noisy-geo detection active)')
   ck.cov['distribution'] = dist
   ck.cov['correspondence'] = {'frames_model_vs_impl': len(terms), 'disagreements': len(bad)}
